@@ -208,7 +208,7 @@ def campaign(ctx: core.Ctx, tier: str, shard: int, nshards: int) -> None:
     quick = tier == "quick"
     for i, case in enumerate(macro_cases(tier)):
         if i % nshards == shard:
-            ctx.run(case)
+            ctx.run(case, enumerated=True)
     core.drive(with_cases(), ctx.run, n=(3000 if quick else 40000) // nshards, seed=core.sub_seed(ctx.seed, shard))
 
 
